@@ -26,7 +26,7 @@ Inductive cpend :=
 | PEntered (r : request)                      (* passed the is_shutting_down check, nothing else done *)
 | PPutChecked (k v w : Z) (ttl : option Z)    (* weight asserted, key not present when looked at *)
 | PSend                                       (* command built (id drawn / key marked), in front of send *)
-| PHit (h ret : Z)                            (* hit counted, access of hash h not yet recorded; ret is returned *)
+| PHit (h : Z) (obs : list Z)                 (* hit counted, access of hash h not yet recorded; obs is what the call returns *)
 | PShut (stage : Z).                          (* inside shutdown(), after the flag; see [shutdown_stage] *)
 
 (** the worker inside a Delete command: acknowledgement, key id and expiry of the removed entry *)
@@ -83,7 +83,8 @@ Definition read_lookup (cfg : config) (ms : mstate) (tid k : Z) (f : Z -> Z) : m
   let s := mbase ms in
   match lookup_alive k s with
   | None => (end_cp ms (upd_st add_misses 1 s) tid, [5])
-  | Some e => (set_cp ms (upd_st add_hits 1 s) tid (PHit (key_hash (c_hash cfg) k) (f (e_val e))), [9])
+  | Some e => (set_cp ms (upd_st add_hits 1 s) tid
+                      (PHit (key_hash (c_hash cfg) k) (if e_val e =? -1 then [5] else [5; f (e_val e)])), [9])
   end.
 
 (** the body of get_ref / map_get_ref behind the flag check *)
@@ -167,10 +168,10 @@ Definition mstepc (cfg : config) (ms : mstate) (tid : Z) (idxs : list Z) : mstat
           let '(s', ret) := do_send cfg tid c (set_blocked s (aremove tid (blocked s))) in (end_cp ms s' tid, ret)
       | _ => (ms, [6])
       end
-  | Some (PHit h ret) =>
+  | Some (PHit h obs) =>
       match idxs with
       | [i] => match pool_add cfg i h s with
-               | Some s' => (end_cp ms s' tid, [5; ret])
+               | Some s' => (end_cp ms s' tid, obs)
                | None => (ms, [7])
                end
       | _ => (ms, [7])
@@ -241,18 +242,19 @@ Fixpoint mtrace (cfg : config) (ms : mstate) (evs : list mevent) : list (list (l
   | ev :: t => let '(ms', ret) := mstep cfg ms ev in dump (mbase ms') ret :: mtrace cfg ms' t
   end.
 
-(** one whole call, its micro steps back to back: enter, then step until the caller has left [cps] *)
+(** one whole call, its micro steps back to back: enter, then step as long as the caller stops at a schedule point *)
+Definition stopped (ret : list Z) : bool := match ret with [9] => true | _ => false end.
 Fixpoint mcall_steps (fuel : nat) (cfg : config) (tid : Z) (idxs : list Z) (ms : mstate) (last : list Z) : mstate * list Z :=
   match fuel with
   | O => (ms, last)
   | S f =>
-      if amem tid (cps ms)
+      if stopped last
       then let '(ms', ret) := mstepc cfg ms tid idxs in mcall_steps f cfg tid idxs ms' ret
       else (ms, last)
   end.
 Definition mcall (cfg : config) (tid : Z) (r : request) (idxs : list Z) (ms : mstate) : mstate * list Z :=
-  let '(ms1, ret) := menter cfg ms tid r idxs in mcall_steps 8 cfg tid idxs ms1 ret.
+  let '(ms1, ret) := menter cfg ms tid r idxs in mcall_steps 7 cfg tid idxs ms1 ret.
 
 (** accesses counted as hits whose record has not reached a buffer yet *)
 Definition inflight_hits (ms : mstate) : Z :=
-  Z.of_nat (length (filter (fun p => match snd p with PHit _ _ => true | _ => false end) (cps ms))).
+  Z.of_nat (length (filter (fun p : Z * cpend => match snd p with PHit _ _ => true | _ => false end) (cps ms))).
